@@ -155,6 +155,8 @@ static std::string gen_tunnel(uint64_t seed, uint64_t idx, bool thorough) {
         int umax = std::min(255, (int)((1500 - hdrs) / (16 + (size_t)((uniform_len + 3) & ~3))));
         if (umax > maxcount && r.chance(0.6)) count = r.chance(0.4) ? umax - (int)r.below(2) : (int)r.range(maxcount + 1, umax);
     }
+    // (a restarted talker may be given the other control format if the frames-per-packet count is valid there too: the TSCF header is the longer one)
+    bool flip_ok = count <= (int)((1500 - (udp ? 4 : 0) - wire::TSCF_HDR) / (fd ? 80 : 24));
     int nframes = (int)(r.chance(0.3) ? r.range(1, 6) : r.range(1, thorough ? 300 : 120));
     if (r.chance(0.6)) nframes = std::max(nframes, count * (int)r.range(1, 4));
     if (count <= 2 && r.chance(0.2)) nframes = (int)r.range(258, 300) * count;  // 8-bit sequence counters wrap inside the run
@@ -214,7 +216,7 @@ static std::string gen_tunnel(uint64_t seed, uint64_t idx, bool thorough) {
         int k = r.chance(0.25) ? 2 : 1;
         for (int i = 0; i < k; i++) {
             size_t fi = long_run ? (size_t)r.range(4200, nframes - 1) : (size_t)r.below(frame_t.size());
-            o.line(strf("restart t=%llu who=%s", (unsigned long long)(frame_t[std::min(fi, frame_t.size() - 1)] + r.range(0, scale)), (i == 0 ? r.chance(0.7) : false) ? "talker" : "listener"));
+            o.line(strf("restart t=%llu who=%s", (unsigned long long)(frame_t[std::min(fi, frame_t.size() - 1)] + r.range(0, scale)), (i == 0 ? r.chance(0.7) : false) ? "talker" : "listener") + ((r.chance(0.4) && flip_ok) ? " flip=1" : ""));
         }
     }
     // the controller reports bus problems as error message frames (CAN_ERR_FLAG): delivered only to sockets that set an error filter,
